@@ -161,3 +161,33 @@ def class_aliases():
                 bases = [b.id if isinstance(b, ast.Name) else ast.unparse(b) for b in n.bases]
                 out[(mod, n.name)] = (bases, al)
     return out
+
+
+class ExtractedSlice(Extracted):
+    """a contiguous group of statements of a function, selected mechanically by an AST predicate; everything else of the
+    function is DROPPED (stated in the evidence) - used for long script-like functions (the two command-line tools)"""
+
+    def __init__(self, base: Extracted, stmts, description):
+        self.mod, self.qualname, self.cls = base.mod, base.qualname + "#" + description, base.cls
+        src = module_ast(base.mod)[0]
+        self.node = ast.FunctionDef(name=base.node.name, args=base.node.args, body=list(stmts), decorator_list=[], returns=None, type_comment=None,
+                                    lineno=base.node.lineno, col_offset=0)
+        ast.fix_missing_locations(self.node)
+        self.node.lineno = base.node.lineno
+        self.segment = "\n".join(ast.get_source_segment(src, s) or "" for s in stmts)
+        self.sha256 = hashlib.sha256(self.segment.encode()).hexdigest()
+        self.lineno = base.node.lineno
+        self.description = description
+
+    def describe(self):
+        d = super().describe()
+        d["slice"] = self.description + " (all other statements of the function are dropped)"
+        return d
+
+
+def get_slice(mod, qualname, selector, description) -> ExtractedSlice:
+    base = get_function(mod, qualname)
+    stmts = selector(base.node)
+    if not stmts:
+        raise KeyError(f"{mod}:{qualname}: no statements match the slice '{description}' (contract drift)")
+    return ExtractedSlice(base, stmts, description)
